@@ -34,6 +34,25 @@ m = {
     'not_applicable': [{'property_id': p['id'], 'reason': NA.get(p['id'], 'check not built yet')}
                        for p in props if p not in claimed],
 }
+def level_text(pid, c):
+    """what the check gives, in our own words (generated from the registry so that it cannot drift)"""
+    mcs = []
+    for tier in ('quick', 'thorough'):
+        for mc in c.get('mc', lambda t: [])(tier):
+            name = mc.get('cfg') or mc['module']
+            if mc.get('expect_violation'):
+                name += ' (refuted on purpose: ' + str(mc['expect_violation']) + ')'
+            if name not in mcs:
+                mcs.append(name)
+    gen = ' TLC also GENERATES inputs / histories / schedules / conversations that the drivers replay into the real code.' if 'gen' in c else ''
+    return ('Bounded-exhaustive TLC model checking of the design (' + ', '.join(mcs) + ': every state within small constants) shows that the '
+            'specification itself has the property and is not vacuous; the binding to the code is trace validation: every call the '
+            'drivers make on the real pamqp is recorded and TLC judges each recorded event against the explicit TLA+ specification '
+            '(spec/trace/Trace.tla, total verdicts naming the failing clause).' + gen + ' This is sampling of the implementation, '
+            'directed by boundaries, the specification\'s own state graph and the input families of DESIGN.md 12.6 -- not a proof '
+            'for all inputs; what is explored per run is in the evidence file. Events: ' + c.get('rule', ''))
+
+
 for p in claimed:
     c = registry.PROPS[p['id']]
     m['checks'].append({
@@ -44,7 +63,7 @@ for p in claimed:
         'replay_cmd_template': './check --replay {path}',
         'engine': 'TLC 1.8 model checker',
         'level_claimed': {'category': 'model_checking',
-                          'text': c.get('level_text', ''),
+                          'text': c.get('level_text') or level_text(p['id'], c),
                           'design_ref': 'DESIGN.md section 6, ' + p['id']},
         'level_note': c.get('level_note', 'Trusted: TLC, the CommunityModules JSON reader, harness/abstraction.py '
                                           '(projection of Python values), the hand-written TLA+ reference codec.'),
